@@ -324,7 +324,7 @@ fn range_tape(next: u64, interval_choice: &[u32]) -> Vec<u32> {
     v
 }
 
-const ENUM_INTERVALS: [(f32, f32); 8] = [
+const ENUM_INTERVALS: [(f32, f32); 12] = [
     (0.0, 1.0),
     (-1.0, 1.0),
     (0.0, 10.0),
@@ -333,6 +333,10 @@ const ENUM_INTERVALS: [(f32, f32); 8] = [
     (0.1, 0.7),
     (-3.3, -1.1),
     (5.0, 5.0),
+    (0.3, 0.3),
+    (100.0, 101.0),
+    (-101.0, -100.0),
+    (1000.0, 1000.5),
 ];
 
 fn enumerate_states(eng: &Engine, p: &C18, ranges: Vec<(u64, u64)>, label: &str) {
@@ -498,6 +502,61 @@ pub fn run(eng: &Engine, replay_path: Option<&str>) -> i32 {
                 let tape = range_tape(next, &[enc_pick(if k == 1 { 1 } else { 0 }, 8)]);
                 eng.report_violation(&p, &tape, &format!("{} [interval #{} = {:?}]", msg, k, ENUM_INTERVALS[k]), "enum_prog");
             }
+            // shuffles that start exactly at the 4096 highest and lowest generator states
+            {
+                let calls = AtomicU64::new(0);
+                let first_bad: std::sync::Mutex<Option<(u64, usize, String)>> = std::sync::Mutex::new(None);
+                (0..8192u64).into_par_iter().for_each(|k| {
+                    let next = if k < 4096 { M - 1 - k } else { k - 4095 };
+                    let seed = prev_state(next);
+                    for len in [1usize, 2, 3, 7, 64, 1000] {
+                        let base: Vec<usize> = (0..len).collect();
+                        let mut v = base.clone();
+                        let r = catch(|| {
+                            let mut g = Generator::create(seed);
+                            g.shuffle(&mut v);
+                            v
+                        });
+                        calls.fetch_add(1, Ordering::Relaxed);
+                        let ok = match &r {
+                            Ok(o) => {
+                                let mut o = o.clone();
+                                o.sort();
+                                o == base
+                            }
+                            Err(_) => false,
+                        };
+                        if !ok {
+                            let mut fb = first_bad.lock().unwrap();
+                            if fb.is_none() {
+                                *fb = Some((seed, len, match r {
+                                    Err(pn) => format!("shuffle of {} elements with seed {} (first state {}) panicked: {}", len, seed, next, pn),
+                                    Ok(_) => format!("shuffle of {} elements with seed {} is not a permutation", len, seed),
+                                }));
+                            }
+                        }
+                    }
+                });
+                {
+                    let mut e = eng.evidence.lock().unwrap();
+                    e.evaluations += calls.load(Ordering::Relaxed);
+                    e.extra.insert("enumerated_shuffle_calls_at_extreme_states".into(), json!(calls.load(Ordering::Relaxed)));
+                }
+                let fb = first_bad.lock().unwrap().clone();
+                if let Some((seed, len, msg)) = fb {
+                    let tape = vec![
+                        enc_pick(2, KINDS),
+                        enc_pick(1, 7),
+                        (seed >> 32) as u32,
+                        seed as u32,
+                        if len > 64 { u32::MAX } else { 0 },
+                        if len > 64 { crate::tape::enc_int(len as i64, 65, 1500) } else { crate::tape::enc_int(len as i64, 0, 64) },
+                        0,
+                        0,
+                    ];
+                    eng.report_violation(&p, &tape, &msg, "enum_shuffle_extreme");
+                }
+            }
             // shuffle through the states at the top of the range: start the walk so that it crosses them
             for len in [1usize, 2, 3, 5, 10, 100] {
                 // walk 2^20 states from a seed-dependent offset
@@ -510,7 +569,7 @@ pub fn run(eng: &Engine, replay_path: Option<&str>) -> i32 {
                 enumerate_shuffle(eng, &p, len, M - 1, 0, "all");
             }
             eng.evidence.lock().unwrap().exhaustive = true;
-            eng.evidence.lock().unwrap().notes.push("exhaustive over the 2^31-2 generator states for generate() with 8 intervals and for the shuffle index with 7 lengths; seeds, lengths, intervals and tensor shapes beyond that are sampled".into());
+            eng.evidence.lock().unwrap().notes.push("exhaustive over the 2^31-2 generator states for generate() with 12 intervals and for the shuffle index with 7 lengths; seeds, lengths, intervals and tensor shapes beyond that are sampled".into());
         }
     }
     eng.explore(&p);
